@@ -547,8 +547,12 @@ def subset_lemma(c):
     """finite sets: R ⊆ Q and card R = card Q imply Q ⊆ R (ghost lemma instance)"""
     p = pre(c)
     x = z3.Const('x4', E)
-    return z3.Implies(z3.And(z3.ForAll([x], z3.Implies(p.R[x], p.inQ[x])), card(p.R) == card(p.inQ)),
-                      z3.ForAll([x], z3.Implies(p.inQ[x], p.R[x])))
+    y = z3.Const('x5', E)
+    return z3.And(
+        z3.Implies(z3.And(z3.ForAll([x], z3.Implies(p.R[x], p.inQ[x])), card(p.R) == card(p.inQ)),
+                   z3.ForAll([x], z3.Implies(p.inQ[x], p.R[x]))),
+        # extensionality: equal membership => equal cardinality
+        z3.Implies(z3.ForAll([y], p.R[y] == p.inQ[y]), card(p.R) == card(p.inQ)))
 
 
 contract(F, 'TaskQueue.empty', props=('C09',),
